@@ -68,3 +68,12 @@ package analyzer
 //@   ensures forall k annotations.TestOnlyKind, recv string, name string, p token.Pos :: toHasP(unbox(result0, annotations.PackageAnnotations).TestonlyAnnotations, k, recv, name, p) <==> (exists f *ast.File :: contains(pass.Files, f) && !skipFile(cfgOf(pass), pass, f) && ((k == annotations.TestOnlyOnType && recv == "" && declsHit(2, f, len(f.Decls), name, p, "", pass.Pkg.Path())) || fdeclsHit(2, f, len(f.Decls), k, recv, name, p, "", pass.Pkg.Path())))
 //@   ensures forall k annotations.TestOnlyKind, recv string, name string, p token.Pos, x string :: poHasP(unbox(result0, annotations.PackageAnnotations).PackageOnlyAnnotations, k, recv, name, p, x) <==> (exists f *ast.File :: contains(pass.Files, f) && !skipFile(cfgOf(pass), pass, f) && ((k == annotations.TestOnlyOnType && recv == "" && declsHit(4, f, len(f.Decls), name, p, x, pass.Pkg.Path())) || fdeclsHit(4, f, len(f.Decls), k, recv, name, p, x, pass.Pkg.Path())))
 //@   ensures forall t string, fname string, p token.Pos :: mutHasP(unbox(result0, annotations.PackageAnnotations).MutableAnnotations, t, fname, p) <==> (exists f *ast.File :: contains(pass.Files, f) && !skipFile(cfgOf(pass), pass, f) && mdeclsHit(f, len(f.Decls), t, fname, p, pass.Pkg.Path()))
+
+// the @implements checker: exports its fact like the others; without @implements annotations it reports nothing (C09)
+//@ func runImplementsChecker
+//@   props C06 C09 C17 C10
+//@   requires driverOK(pass)
+//@   ensures exportsOnce(pass, old(pass.$nexports), tagof(*annotations.ImplementsCheckerFact))
+//@   ensures result0 == nil && result1 == nil
+//@   ensures (!hasAnn(pass) || len(annOf(pass).ImplementsAnnotations) == 0) ==> pass.$reports == old(pass.$reports)
+//@   ensures len(pass.$reports) >= old(len(pass.$reports)) && (forall k int :: 0 <= k && k < old(len(pass.$reports)) ==> pass.$reports[k] == old(pass.$reports)[k])
